@@ -166,7 +166,15 @@ pub fn is_valid_user_token(token: &String, user_name: &String, db: &Database) ->
 }
 
 pub fn set_connection_counter(db: &Database, dbs: &Arc<Databases>) -> Response {
-    let value = db.connections_count().to_string();
+    // The counter's lock is held until the key is written: two sessions arriving together would
+    // otherwise publish their counts in the wrong order and leave the older count in the key
+    #[cfg(feature = "verif_hooks")]
+    crate::verif::yield_point("set_connection_counter:connections:write");
+    let connections = db
+        .connections
+        .write()
+        .expect("Error getting the db.connections.lock to publish");
+    let value = connections.load(std::sync::atomic::Ordering::Relaxed).to_string();
     return set_key_value(CONNECTIONS_KEY.to_string(), value, -1, db, &dbs);
 }
 
